@@ -7,15 +7,20 @@ SPEC = dict(
     runner=dict(imports=["From ZV Require Import Lib.Base Model.MergeDocs."], case_type="c16case",
                 mismatch_fn="c16_mismatches", shard=60),
     rule="random simple shards built with the real ShardBuilder (1-4 repos per round, distinct priorities, 1-3 branches "
-         "from a rotating pool, optional sub-repositories, 1-4 documents with branch subsets, explicit or detected "
-         "language, 0-3 symbols with metadata, occasional binary content) -> real index.Merge -> optional .meta "
-         "tombstones (real SetTombstone) + fresh simple shards -> Merge again (compound input, shuffled order) -> real "
+         "from a rotating pool or, 25 %, 33-64 branches with documents on the branches 33..64, optional sub-repositories, 1-4 "
+         "documents with branch subsets, explicit or detected language, 0-3 symbols with metadata or, 20 % of the shards, "
+         "symbol sections WITHOUT metadata, occasional binary content) -> real index.Merge -> optional .meta tombstones (real "
+         "SetTombstone on the compound's first / middle / last member) + fresh simple shards (35 % of them tombstoned through "
+         "their own .meta) -> Merge again (compound input, shuffled order) -> real "
          "explode (optionally after another tombstone). Each step is one case: encoded inputs as held by indexData and "
-         "the decoded outputs; all cases are non-trivial (>= 1 repo with documents copied).",
+         "the decoded outputs (branch masks read bit by bit over all 64 bits); all cases are non-trivial (>= 1 repo with documents "
+         "copied or dropped). Classes: branches>32, symbols-without-metadata, tomb-first/-middle/-last (position of a tombstoned "
+         "repository with documents in merge's processing order), tomb-multi-doc (>= 2 documents).",
     trusted_base=["correspondence harness harness/overlay/index/zz_verif_c16_test.go (generator, dump of indexData's encoded "
                   "fields, decoding of outputs with the accessors addDocument uses, Go oracle = fixed query battery over "
                   "inputs vs outputs incl. branch/lang/symbol/regexp queries and List)",
-                  "model abstractions: strings are identifiers; branch mask = bit list; symbols/category opaque payload; "
+                  "model abstractions: strings are identifiers; branch mask = bit list (walk width explicit: decode_w); symbols = ranges + "
+                  "metadata id (0 = none stored, copied as the empty metadata), category opaque payload; "
                   "postings / query engine not modelled: search equivalence is proved for every document-local engine (hypothesis), "
                   "document-locality of indexData.Search/List itself is checked by the oracle's query battery (cf. C01), not proved here"],
     assumptions=["input shards well-formed (wf_shard): masks as long as the branch list, distinct branch names and sub-repo paths, "
